@@ -25,12 +25,13 @@ pub(crate) fn unwrap_model<T, E: core::fmt::Debug>(r: Result<T, E>) -> T {
 
 macro_rules! vmod {
     ($name:ident, $file:literal) => {
-        #[allow(dead_code, unused_imports, unused_variables, unused_mut, clippy::all)]
+        #[allow(dead_code, unused_imports, unused_variables, unused_mut, unsafe_code, static_mut_refs, clippy::all)]
         pub(crate) mod $name {
             include!(concat!(env!("FUELLABS_FUEL_VM_VERIF_DIR"), "/incrate/vm/", $file));
         }
     };
 }
+vmod!(slotst, "slot_storage.rs");
 vmod!(c35, "c35_upload.rs");
 
 /// Counterexample replay (lib/replay.py): generated concrete-playback tests.
